@@ -2,6 +2,7 @@
 Driver ops of C11 (harness/cc/totality*.go):
   cc  <hex> <expect> <gen>          -> run         (whole compilations are not modelled; the line
                                                     exists so that the harness re-evaluates its oracle)
+  probe <position> <name> <gen>     -> run         (naming probe program, totality_names.go)
   stc <hex>                         -> snakeToCamel
   ttl <hex>                         -> title
   tsn <hex name> <hex service>      -> titleServiceName
@@ -213,6 +214,7 @@ def showOpts (m : List (Name × Name)) : String :=
 def stepCompile (op : String) (args : List String) : Option String :=
   match op, args with
   | "cc", [_, _, _] => some "run"
+  | "probe", [_, _, _] => some "run"
   | "stc", [x] => do
     let n ← nameOfHex x
     pure (showC (fun r => "ok " ++ hexOfName r) (snakeToCamel n))
